@@ -541,12 +541,53 @@ fn run(ctx: &mut Ctx) {
         let total = 6u64.pow(len as u32);
         for k in 0..total {
             for which in ["amount", "value-expr"] {
+                let lit = nth_string(len, k);
+                for form in ["suffix", "prefix-blank", "prefix-tight"] {
                 if !ctx.next_is_mine() {
                     ctx.skip_cases(1);
                     continue;
                 }
-                let lit = nth_string(len, k);
-                let text = format!("{} X", lit);
+                let text = match form {
+                    "suffix" => format!("{} X", lit),
+                    "prefix-blank" => format!("X {}", lit),
+                    _ => format!("${}", lit),
+                };
+                let which_form = format!("{}/{}", which, form);
+                let which = which_form.as_str();
+                let is_prefix = form != "suffix";
+                if is_prefix {
+                    ctx.case(
+                        || format!("{}::try_from({:?})", which, text),
+                        || {
+                            // commodity written first (statement cells such as `$-20.00`, `USD 5`): where okane reads the text at
+                            // all, the number is the written one - sign included; a malformed literal is never accepted
+                            if lit.starts_with("--") {
+                                return Outcome::dont_care(format!("try-from/{}/dontcare/two-leading-minus-signs", which));
+                            }
+                            let exp = reference(&lit);
+                            let got: Result<(bool, PrettyDecimal), String> = if which.starts_with("amount") {
+                                expr::Amount::try_from(text.as_str()).map(|a| (false, a.value)).map_err(|e| e.to_string())
+                            } else {
+                                expr::ValueExpr::try_from(text.as_str()).map_err(|e| e.to_string()).and_then(|v| first_number(&v).map(|(n, p)| (n, p.clone())).ok_or_else(|| "no number".to_string()))
+                            };
+                            match (&exp, &got) {
+                                (Exp::DontCare(w), _) => Outcome::dont_care(format!("try-from/{}/dontcare/{}", which, w)),
+                                (Exp::Reject(w), Ok((n, p))) => Outcome::violation(format!("try-from/{}/accepted-malformed/{}", which, w), format!("{:?} was accepted and read as {}{}", text, if *n { "-" } else { "" }, p.value)),
+                                (Exp::Reject(w), Err(_)) => Outcome::pass(format!("try-from/{}/rejected/{}", which, w)),
+                                (Exp::Accept { .. }, Err(_)) => Outcome::dont_care(format!("try-from/{}/dontcare/prefix-spelling-not-read", which)),
+                                (Exp::Accept { digits, scale, neg, .. }, Ok((n, p))) => {
+                                    let eff = if *n { -p.value.mantissa() } else { p.value.mantissa() };
+                                    if eff == want_mantissa(digits, *neg) && p.value.scale() == *scale {
+                                        Outcome::pass(format!("try-from/{}/accepted", which))
+                                    } else {
+                                        Outcome::violation(format!("try-from/{}/value-differs", which), format!("{:?} read as {}{} (scale {})", text, if *n { "-" } else { "" }, p.value, p.value.scale()))
+                                    }
+                                }
+                            }
+                        },
+                    );
+                    continue;
+                }
                 ctx.case(
                     || format!("{}::try_from({:?})", which, text),
                     || {
@@ -574,6 +615,64 @@ fn run(ctx: &mut Ctx) {
                         }
                     },
                 );
+                }
+            }
+        }
+    }
+    // family 6: statement cells of the CSV importer. Every string of length <= 4 over the family-1 alphabet in each numeric
+    // column (amount, charge, balance, secondary amount, rate): a malformed literal makes the import FAIL, whichever column
+    // holds it (never a silently dropped or re-read figure)
+    {
+        let cfg = "path: \"stmt\"\nencoding: UTF-8\naccount: \"Assets:Bank\"\naccount_type: asset\noperator: \"Bank Ltd\"\ncommodity: CHF\nformat:\n  date: \"%Y-%m-%d\"\n  fields:\n    date: Date\n    payee: Payee\n    amount: Amount\n    charge: Fee\n    balance: Balance\n    secondary_amount: SecAmount\n    secondary_commodity: SecCommodity\n    rate: Rate\nrewrite: []\n";
+        let set = okane::import::config::load_from_yaml(cfg.as_bytes()).unwrap_or_else(|e| panic!("harness bug: configuration does not load: {}", e));
+        let entry = match set.select(std::path::Path::new("/x/stmt.csv")) {
+            Ok(Some(e)) => e,
+            other => panic!("harness bug: configuration not selected: {:?}", other.map(|o| o.is_some()).map_err(|e| e.to_string())),
+        };
+        let columns = ["Amount", "Fee", "Balance", "SecAmount", "Rate"];
+        for len in 1..=4usize {
+            for k in 0..6u64.pow(len as u32) {
+                for (ci, col) in columns.iter().enumerate() {
+                    if !ctx.next_is_mine() {
+                        ctx.skip_cases(1);
+                        continue;
+                    }
+                    let lit = nth_string(len, k);
+                    let mut cells = ["-20.50".to_string(), "0.50".to_string(), "100.00".to_string(), "".to_string(), "".to_string()];
+                    if ci >= 3 {
+                        cells[3] = "18.50".to_string();
+                        cells[4] = "1.10".to_string();
+                    }
+                    cells[ci] = lit.clone();
+                    let sec_com = if ci >= 3 { "EUR" } else { "" };
+                    let csv = format!("Date,Payee,Amount,Fee,Balance,SecAmount,SecCommodity,Rate\n2024-01-05,Shop,\"{}\",\"{}\",\"{}\",\"{}\",{},\"{}\"\n", cells[0], cells[1], cells[2], cells[3], sec_com, cells[4]);
+                    let entry = &entry;
+                    ctx.case(
+                        || format!("CSV import, column {} holds {:?}:\n{}", col, lit, csv),
+                        || {
+                            if lit.starts_with("--") {
+                                return Outcome::dont_care(format!("csv-cell/{}/dontcare/two-leading-minus-signs", col));
+                            }
+                            let exp = reference(&lit);
+                            let got = okane::import::import(csv.as_bytes(), okane::import::Format::Csv, entry).map_err(|e| e.to_string()).and_then(|txns| {
+                                let mut n = 0;
+                                for t in &txns {
+                                    t.to_double_entry(&entry.account).map_err(|e| e.to_string())?;
+                                    n += 1;
+                                }
+                                Ok(n)
+                            });
+                            match (&exp, &got) {
+                                (Exp::DontCare(w), _) => Outcome::dont_care(format!("csv-cell/{}/dontcare/{}", col, w)),
+                                (Exp::Reject(w), Ok(_)) => Outcome::violation(format!("csv-cell/{}/accepted-malformed/{}", col, w), format!("column {} holds the malformed literal {:?} ({}) and the import succeeded", col, lit, w)),
+                                (Exp::Reject(w), Err(_)) => Outcome::pass(format!("csv-cell/{}/rejected/{}", col, w)),
+                                (Exp::Accept { .. }, Ok(_)) => Outcome::pass(format!("csv-cell/{}/imported", col)),
+                                // a well-formed figure may still be refused for reasons outside C07 (zero rate, inconsistent figures)
+                                (Exp::Accept { .. }, Err(_)) => Outcome::dont_care(format!("csv-cell/{}/dontcare/well-formed-but-import-refused", col)),
+                            }
+                        },
+                    );
+                }
             }
         }
     }
